@@ -52,10 +52,10 @@ func init() {
 }
 
 // CompareDevices compares every connected, synchronized device with the model's device tree.
-func (s *Sys) CompareDevices(dev map[string]Tree, prop, oracle string) {
+func (s *Sys) CompareDevices(dev map[string]Tree, prop, oracle string, skip ...map[string]bool) {
 	for _, t := range s.Plan.Knobs.Targets {
 		c := s.Rec.Cfgs[CfgID(t)]
-		if c == nil || !s.connUp[t] {
+		if c == nil || !s.connUp[t] || (len(skip) > 0 && skip[0][t]) {
 			continue
 		}
 		if c.Status.State != configapi.ConfigurationStatus_SYNCHRONIZED || c.Status.Applied.Mastership.Term != c.Status.Mastership.Term {
